@@ -17,6 +17,10 @@ type Profile struct {
 	NoWtxnNext bool // Next never gets an open WriteTxn (C02-B)
 	Unlocked bool // allow writes aimed at tables the transaction does not hold
 	MaxMin   int
+	// Preamble: with probability 1/2 the case starts with these operations (a
+	// scenario that makes the interesting region reachable); the generated
+	// operations follow. The whole list still shrinks as one value.
+	Preamble []Op
 }
 
 var keyAlphabet = []byte{0x00, 0x01, 0x02, 'a', 0xff}
@@ -160,6 +164,9 @@ func genCase(t *rapid.T, p Profile) Case {
 		mm = 25
 	}
 	c.Ops = vk.Ops(t, genOp(p, n), mm, "ops")
+	if len(p.Preamble) > 0 && rapid.Bool().Draw(t, "preamble") {
+		c.Ops = append(append([]Op{}, p.Preamble...), c.Ops...)
+	}
 	return c
 }
 
